@@ -42,9 +42,20 @@ type budgetWriter struct {
 	flavour string
 	acc     bytes.Buffer
 	failed  bool
+	calls   int
 }
 
 func (w *budgetWriter) Write(p []byte) (int, error) {
+	if w.flavour == "2" {
+		// transient failure: exactly the k-th Write call (k = budget) is rejected
+		w.calls++
+		if w.calls-1 == w.budget {
+			w.failed = true
+			return 0, errInjectedWriter
+		}
+		w.acc.Write(p)
+		return len(p), nil
+	}
 	if len(p) <= w.budget {
 		w.budget -= len(p)
 		w.acc.Write(p)
@@ -91,6 +102,13 @@ func handleFaults(toks []string) (string, bool) {
 			w := &budgetWriter{budget: b, flavour: toks[3]}
 			err = gtree.OutputFromMarkdown(w, r, opts...)
 			acc = w.acc.String()
+			if toks[3] == "2" {
+				fl := "0"
+				if w.failed {
+					fl = "1"
+				}
+				return classifyFault(err, toks[3]) + " " + hx(acc) + " " + fl, true
+			}
 		} else {
 			var w bytes.Buffer
 			err = gtree.OutputFromMarkdown(&w, r, opts...)
@@ -119,6 +137,13 @@ func handleFaults(toks []string) (string, bool) {
 		b, _ := strconv.Atoi(toks[1])
 		w := &budgetWriter{budget: b, flavour: toks[2]}
 		err := gtree.OutputFromRoot(w, root, opts...)
+		if toks[2] == "2" {
+			fl := "0"
+			if w.failed {
+				fl = "1"
+			}
+			return classifyFault(err, toks[2]) + " " + hx(w.acc.String()) + " " + fl, true
+		}
 		return classifyFault(err, toks[2]) + " " + hx(w.acc.String()), true
 	}
 	return "", false
